@@ -75,6 +75,9 @@ class Delegate:
         self.force_success_at = force_success_at
 
     async def __call__(self, es, params):
+        if isinstance(params, dict) and params.get("__another-task"):
+            # a request of another task that runs the same operation type at the same time: succeeds at once, not part of this history
+            return {"weight": 1, "unit": "ops", "success": True}
         i = self.calls
         self.calls += 1
         self.sleeps_at_call.append(len(SLEEPS))
@@ -191,8 +194,29 @@ def retry_bounded(sl):
             drive(r(None, prior))
         r.delegate = d
         SLEEPS.clear()
-    with shadowed(runner, (), extra={"asyncio": FakeAsyncio}):
-        how, val = drive(r(None, params))
+    if sl.get("overlap"):
+        # one Retry object serves every task of an operation type in a worker process: while this call waits between two attempts another
+        # task's call with OTHER retry settings runs through the same object (two tasks of a parallel element, two streams of a composite)
+        other = {"__another-task": True, "retries": fresh_int("other_retries", 0, 3), "retry-on-error": fresh_bool("other_roe"),
+                 "retry-on-timeout": fresh_bool("other_rot"), "retry-wait-period": 77}
+
+        class Overlap:
+            fired = False
+
+            @staticmethod
+            async def sleep(t):
+                SLEEPS.append(t)
+                if not Overlap.fired:
+                    Overlap.fired = True
+                    n = len(SLEEPS)
+                    drive(r(None, other))
+                    del SLEEPS[n:]
+
+        with shadowed(runner, (), extra={"asyncio": Overlap}):
+            how, val = drive(r(None, params))
+    else:
+        with shadowed(runner, (), extra={"asyncio": FakeAsyncio}):
+            how, val = drive(r(None, params))
     # concrete view of the symbolic parameters on this path (forks if still undecided)
     n_max = int(retries) + 1 if not core.is_sym(retries) else core.concretize((retries + 1).z)
     roe = bool(retry_on_error)
@@ -416,7 +440,8 @@ READS = [runner.Retry.__call__, runner.Retry.__aenter__, runner.Retry.__aexit__]
 HARNESSES = [
     Harness("retry_bounded", retry_bounded, "symbolic",
             lambda tier: [{"max_retries": 3 if tier == "quick" else 4, "present": m, "_w": bin(m).count("1")} for m in range(32)]
-            + [{"max_retries": 2, "present": m, "prior": 1} for m in (0, 1, 2, 7, 16, 31)], reads=READS,
+            + [{"max_retries": 2, "present": m, "prior": 1} for m in (0, 1, 2, 7, 16, 31)]
+            + [{"max_retries": 2, "present": m, "overlap": 1} for m in (1, 7, 15, 31)], reads=READS,
             bounds={"retries": "0..3 quick / 0..4 thorough (so <=4 / <=5 attempts)", "outcome classes": len(NAMES),
                     "wait period": "unbounded real >= 0", "parameter presence": "each of the five parameters present or absent"},
             stubs=["delegate runner (symbolic outcome class per attempt)", "asyncio.sleep inside esrally.driver.runner (recorder)"],
